@@ -13,11 +13,16 @@
 package c12
 
 import (
+	"context"
 	"encoding/json"
 	"fmt"
 	"os"
+	"os/exec"
 	"path/filepath"
+	goruntime "runtime"
+	"runtime/debug"
 	"strings"
+	"time"
 
 	"github.com/php-any/origami/data"
 	"github.com/php-any/origami/node"
@@ -74,12 +79,27 @@ type disk struct {
 	root   string
 	paths  []string
 	byPath map[string]int
+	byRaw  map[string]int // memo: GetSource() string as reported → file id (-1 unknown)
+	parser *parser.Parser // one parser (lexer tables, class path) re-bound to every fresh base VM
+	fields [3]string      // model-side description (constant)
+}
+
+func (d *disk) fileOf(src string) (int, bool) {
+	if f, ok := d.byRaw[src]; ok {
+		return f, f >= 0
+	}
+	f, ok := d.byPath[utils.NormalizePhpFilePath(src)]
+	if !ok {
+		f = -1
+	}
+	d.byRaw[src] = f
+	return f, ok
 }
 
 func short(n int) string { return strings.TrimPrefix(names[n], `N\`) }
 
 func writeDisk(root string) (*disk, error) {
-	d := &disk{root: root, byPath: map[string]int{}}
+	d := &disk{root: root, byPath: map[string]int{}, byRaw: map[string]int{}}
 	for i, f := range files {
 		p := filepath.Join(root, f.rel)
 		d.paths = append(d.paths, p)
@@ -109,8 +129,16 @@ func writeDisk(root string) (*disk, error) {
 	return d, nil
 }
 
-// model-side description of the disk (constant)
 func (d *disk) modelFields() (string, string, string) {
+	if d.fields[0] == "" {
+		a, b, c := d.computeFields()
+		d.fields = [3]string{a, b, c}
+	}
+	return d.fields[0], d.fields[1], d.fields[2]
+}
+
+// model-side description of the disk (constant)
+func (d *disk) computeFields() (string, string, string) {
 	var fs, fd, fo []string
 	for i, f := range files {
 		if f.miss {
@@ -224,10 +252,10 @@ type world struct {
 
 func newWorld(d *disk, nt int) *world {
 	w := &world{d: d, stubs: map[any]int{}}
-	p := parser.NewParser()
-	w.base = runtime.NewVM(p)
+	// runtime.NewVM binds the parser to the new VM (parser.SetVM); the parser carries no
+	// definitions itself, so one instance serves every fresh base VM of this process.
+	w.base = runtime.NewVM(d.parser)
 	w.base.SetThrowControl(func(acl data.Control) { w.thrown++ })
-	w.base.AddNamespace("N", filepath.Join(d.root, "cls"))
 	for i := 0; i < nt; i++ {
 		w.temps = append(w.temps, runtime.NewTempVM(w.base))
 	}
@@ -267,7 +295,7 @@ func (w *world) src(x any) string {
 		return fmt.Sprintf("s%d", id)
 	}
 	if g, ok := x.(fromer); ok && g.GetFrom() != nil {
-		if f, ok := w.d.byPath[utils.NormalizePhpFilePath(g.GetFrom().GetSource())]; ok {
+		if f, ok := w.d.fileOf(g.GetFrom().GetSource()); ok {
 			return fmt.Sprintf("f%d", f)
 		}
 		return "?" + filepath.Base(g.GetFrom().GetSource())
@@ -575,6 +603,10 @@ type runner struct {
 	// compare the known-stream cases with the model only while the pinned
 	// routes still behave as modelled
 	knownAsModelled bool
+	shrunk          map[string]int
+	shard, nshards  int
+	idx             int
+	batch           []caseT
 }
 
 func (r *runner) sameSig(cs caseT, sig string) bool {
@@ -615,6 +647,12 @@ func (r *runner) judge(cs caseT, fs []finding) {
 		small := cs
 		what := f.what
 		if !r.c.Known[f.sig] {
+			if r.shrunk[f.sig] >= 2 {
+				// two shrunk replays per signature are kept; further hits are only counted
+				r.c.Violation(f.sig, what, nil)
+				continue
+			}
+			r.shrunk[f.sig]++
 			small = r.shrink(cs, f.sig)
 			_, fs2 := runImpl(r.d, small)
 			for _, g := range fs2 {
@@ -628,8 +666,18 @@ func (r *runner) judge(cs caseT, fs []finding) {
 	}
 }
 
+func (cs caseT) key() string {
+	var sb strings.Builder
+	fmt.Fprintf(&sb, "%d;", cs.NT)
+	for _, o := range cs.Ops {
+		sb.WriteString(o.model())
+		sb.WriteByte('|')
+	}
+	return sb.String()
+}
+
 func (r *runner) account(cs caseT, obs []stepObs) {
-	r.c.Eval(cs.modelLine(r.d), nontrivial(cs))
+	r.c.Eval(cs.key(), nontrivial(cs))
 	r.c.Hit(fmt.Sprintf("%s:len=%d", cs.Stream, len(cs.Ops)))
 	for i, o := range cs.Ops {
 		via := "temp"
@@ -783,21 +831,44 @@ func canonicalTemps(ops []op) bool {
 	return true
 }
 
+// take says whether the next generated case belongs to this shard (cases are
+// generated identically in every shard, so the explored set does not depend on
+// the number of workers).
+func (r *runner) take() bool {
+	i := r.idx
+	r.idx++
+	return r.nshards <= 1 || i%r.nshards == r.shard
+}
+
+func (r *runner) push(cs caseT) {
+	if !r.take() {
+		return
+	}
+	r.batch = append(r.batch, cs)
+	if len(r.batch) >= 1000 {
+		r.flush()
+	}
+}
+
+func (r *runner) flush() {
+	r.runBatch(r.batch)
+	r.batch = r.batch[:0]
+}
+
+// exhaustive enumerates every sequence of exactly `length` operations over alpha
+// (TempVM slots up to renaming) and returns how many there are (all shards).
 func (r *runner) exhaustive(alpha []op, length int, nt int, pool []int) int {
-	var batch []caseT
 	count := 0
 	cur := make([]op, 0, length)
 	var rec func()
 	rec = func() {
 		if len(cur) == length {
-			if !canonicalTemps(cur) {
-				return
-			}
-			batch = append(batch, caseT{Stream: "main", NT: nt, Pool: pool, Ops: stamp(cur)})
 			count++
-			if len(batch) >= 2000 {
-				r.runBatch(batch)
-				batch = batch[:0]
+			if r.take() {
+				r.batch = append(r.batch, caseT{Stream: "main", NT: nt, Pool: pool, Ops: stamp(cur)})
+				if len(r.batch) >= 1000 {
+					r.flush()
+				}
 			}
 			return
 		}
@@ -810,7 +881,7 @@ func (r *runner) exhaustive(alpha []op, length int, nt int, pool []int) int {
 		}
 	}
 	rec()
-	r.runBatch(batch)
+	r.flush()
 	return count
 }
 
@@ -824,7 +895,7 @@ func (r *runner) randomCase(alpha []op, n int, stream string) caseT {
 
 // ------------------------------------------------------------ known stream
 
-// the negation witness of Proofs/Properties/C12.lean, replayed on the real code
+// the negation witnesses of Proofs/Properties/C12.lean, replayed on the real code
 func witnessGoli() caseT {
 	return caseT{Stream: "known", NT: 2, Pool: allPool(), Ops: []op{{K: "goli", V: 0, N: 2}}}
 }
@@ -847,20 +918,19 @@ func (r *runner) knownStream() {
 		}
 		if !hit {
 			r.knownAsModelled = false
-			r.c.Note("known finding %s does not reproduce on this tree; known-stream cases are judged by the oracle only", wc.sig)
+			if r.shard == 0 {
+				r.c.Note("known finding %s does not reproduce on this tree; known-stream cases are judged by the oracle only", wc.sig)
+			}
 		}
+	}
+	if r.shard == 0 {
+		r.runBatch([]caseT{witnessGoli(), witnessPkg()})
 	}
 	alpha := append(alphabet(4, allPool(), []int{0, 1, 2, 3, 4, 5, 6, 7, 8, 9}, []int{0, 1, 5, 6, 8}), knownAlphabet(4, allPool())...)
-	var batch []caseT
-	batch = append(batch, witnessGoli(), witnessPkg())
-	for i := 0; i < r.c.N(1500, 30000); i++ {
-		batch = append(batch, r.randomCase(alpha, r.c.Rand.Range(1, 40), "known"))
-		if len(batch) >= 500 {
-			r.runBatch(batch)
-			batch = batch[:0]
-		}
+	for i := 0; i < r.c.N(3000, 60000); i++ {
+		r.push(r.randomCase(alpha, r.c.Rand.Range(1, 40), "known"))
 	}
-	r.runBatch(batch)
+	r.flush()
 }
 
 // ------------------------------------------------------------ runner
@@ -869,6 +939,7 @@ func checkDisk(d *disk) error {
 	p := parser.NewParser()
 	vm := runtime.NewVM(p)
 	vm.AddNamespace("N", filepath.Join(d.root, "cls"))
+	d.parser = p
 	for n := range names {
 		got, ok := p.GetClassPathManager().FindClassFile(names[n])
 		want, wok := find[n]
@@ -879,8 +950,161 @@ func checkDisk(d *disk) error {
 	return nil
 }
 
+const rule = "every sequence of exactly L operations (all shorter ones are its prefixes, judged step by step) over an alphabet {AddClass/AddInterface/AddFunc of a stub, LoadAndRun, ParseFile, GetOrLoadClass, GetOrLoadInterface, LoadPkg, discard} x {base, TempVM 0, TempVM 1} x colliding names/files, TempVM slots up to renaming; plus seeded sequences of 5..40 operations over 1 base + 4 TempVMs, 8 colliding names (2 case-variant pairs; each name used as class, interface and function) and 10 files (one missing); after every operation the resolve tables of all VMs (3 kinds x pool lookups each, identified by which definition answers) are compared with the Lean model and judged by the snapshot/bookkeeping oracle. The routes of the known finding (GetOrLoadInterface/LoadPkg through a TempVM for an autoloadable name) run in a separate stream. non-trivial = a definition through a TempVM and an operation on another VM; distinct = distinct operation sequence"
+
+func workers(c *vh.Ctx) int {
+	w := goruntime.NumCPU() / 2
+	if c.Workers > 0 && w > c.Workers {
+		w = c.Workers
+	}
+	if s := os.Getenv("VERIF_WORKERS"); s != "" {
+		fmt.Sscan(s, &w)
+	}
+	if w < 1 {
+		w = 1
+	}
+	return w
+}
+
 func Run(c *vh.Ctx) {
-	r := &runner{c: c}
+	if s := os.Getenv("C12_SHARD"); s != "" {
+		var k, n int
+		if _, err := fmt.Sscanf(s, "%d/%d", &k, &n); err == nil && n > 0 {
+			runShard(c, k, n)
+			return
+		}
+	}
+	if w := workers(c); len(c.ReplayRaw) == 0 && w > 1 {
+		runParent(c, w)
+		return
+	}
+	runShard(c, 0, 1)
+}
+
+// runParent: the real VM is exercised in worker processes (origami keeps
+// package-level state, so in-process parallelism is not an option); every worker
+// generates the same case list and executes its residue class.
+func runParent(c *vh.Ctx, n int) {
+	c.Res.Rule = rule
+	kf := filepath.Join(c.Scratch, "known.json")
+	var ks []string
+	for k := range c.Known {
+		ks = append(ks, k)
+	}
+	kb, _ := json.Marshal(ks)
+	os.WriteFile(kf, kb, 0o644)
+	type out struct {
+		res *vh.Result
+		err string
+	}
+	outs := make([]out, n)
+	done := make(chan int, n)
+	limit := 25 * time.Minute
+	if !c.Thorough() {
+		limit = 8 * time.Minute
+	}
+	for k := 0; k < n; k++ {
+		go func(k int) {
+			defer func() { done <- k }()
+			of := filepath.Join(c.Scratch, fmt.Sprintf("shard%d.json", k))
+			args := []string{"C12", "--tier", c.Tier, "--seed", fmt.Sprint(c.Seed), "--out", of, "--known-file", kf, "--repo", c.Repo}
+			if c.ModelPath != "" {
+				args = append(args, "--model", c.ModelPath)
+			}
+			ctx, cancel := context.WithTimeout(context.Background(), limit)
+			defer cancel()
+			cmd := exec.CommandContext(ctx, vh.Self(), args...)
+			cmd.Env = append(os.Environ(), fmt.Sprintf("C12_SHARD=%d/%d", k, n))
+			b, err := cmd.CombinedOutput()
+			rb, rerr := os.ReadFile(of)
+			if rerr != nil {
+				outs[k].err = fmt.Sprintf("worker %d/%d: %v %v: %s", k, n, err, rerr, tailStr(string(b), 600))
+				return
+			}
+			var res vh.Result
+			if jerr := json.Unmarshal(rb, &res); jerr != nil {
+				outs[k].err = fmt.Sprintf("worker %d/%d: bad result: %v", k, n, jerr)
+				return
+			}
+			outs[k].res = &res
+		}(k)
+	}
+	for i := 0; i < n; i++ {
+		<-done
+	}
+	evals, lines, traces := 0, 0, 0
+	modelUsed := c.ModelPath != ""
+	notes := map[string]bool{}
+	for k, o := range outs {
+		if o.res == nil {
+			c.Mismatch(nil, o.err, "", "a worker process of the correspondence run did not complete")
+			continue
+		}
+		res := o.res
+		evals += res.Evaluations
+		lines += res.ModelLines
+		traces += res.Traces
+		modelUsed = modelUsed && res.ModelUsed
+		for i := 0; i < res.Distinct; i++ {
+			c.Eval(fmt.Sprintf("%d.%d", k, i), true)
+		}
+		for hk, hv := range res.Histogram {
+			c.HitN(hk, hv)
+		}
+		c.Res.MismatchCount += res.MismatchCount
+		for _, m := range res.Mismatches {
+			if len(c.Res.Mismatches) < 20 {
+				c.Res.Mismatches = append(c.Res.Mismatches, m)
+			}
+		}
+		c.Res.ViolationCount += res.ViolationCount
+		for _, v := range res.Violations {
+			dup := 0
+			for _, have := range c.Res.Violations {
+				if have.Sig == v.Sig {
+					dup++
+				}
+			}
+			if v.Case != nil && dup < 2 && len(c.Res.Violations) < 20 {
+				c.Res.Violations = append(c.Res.Violations, v)
+			}
+		}
+		for sig, what := range res.KnownConfirmed {
+			c.KnownStillThere(sig, what)
+		}
+		for _, nt := range res.Notes {
+			if !notes[nt] {
+				notes[nt] = true
+				c.Note("%s", nt)
+			}
+		}
+		for _, sm := range res.Samples {
+			if k%4 == 0 {
+				c.Sample(sm)
+			}
+		}
+		if k == 0 {
+			c.Res.Exhaustive = res.Exhaustive
+			c.Res.ExhaustiveWhat = res.ExhaustiveWhat
+		}
+	}
+	c.Res.Evaluations = evals
+	c.Res.ModelLines = lines
+	c.Res.Traces = traces
+	c.Res.ModelUsed = modelUsed
+	c.Note("%d worker processes, each executing its residue class of the same generated case list", n)
+}
+
+func tailStr(s string, n int) string {
+	if len(s) > n {
+		return s[len(s)-n:]
+	}
+	return s
+}
+
+func runShard(c *vh.Ctx, shard, nshards int) {
+	debug.SetGCPercent(400) // parser clones are allocation-heavy; trade memory for time
+	r := &runner{c: c, shrunk: map[string]int{}, shard: shard, nshards: nshards}
 	if c.ModelPath != "" {
 		m, err := vh.StartModel(c.ModelPath)
 		if err != nil {
@@ -913,38 +1137,33 @@ func Run(c *vh.Ctx) {
 		if len(cs.Pool) == 0 {
 			cs.Pool = allPool()
 		}
+		if cs.Stream == "" {
+			cs.Stream = "main"
+		}
 		r.knownAsModelled = true
 		r.runBatch([]caseT{cs})
 		return
 	}
-	c.Res.Rule = "every sequence of exactly L operations (all shorter ones are its prefixes, judged step by step) over the exhaustive alphabet {AddClass/AddInterface/AddFunc of a stub, LoadAndRun, ParseFile, GetOrLoadClass, GetOrLoadInterface, LoadPkg, discard} x {base, TempVM 0, TempVM 1} x colliding names/files, TempVM slots up to renaming; plus seeded sequences of 1..40 operations over 1 base + 4 TempVMs, 8 colliding names (2 case-variant pairs; each name used as class, interface and function) and 10 files; after every operation the resolve tables of all 5 VMs (24 lookups each) are compared with the Lean model and judged by the snapshot/bookkeeping oracle. non-trivial = a definition through a TempVM and an operation on another VM; distinct = distinct operation sequence"
+	c.Res.Rule = rule
 
-	// ---- exhaustive part
-	exNames := []int{0, 1, 2}
+	// ---- exhaustive part (base + 2 TempVMs)
 	exPool := []int{0, 1, 2, 3, 4}
-	small := alphabet(2, exNames, []int{0, 5, 6}, []int{0, 5})
-	n3 := r.exhaustive(small, 3, 2, exPool)
-	tiny := alphabet(2, []int{0, 1}, []int{0, 5}, []int{5})
-	var n4 int
+	a3 := alphabet(2, []int{0, 1, 2}, []int{0, 5, 6}, []int{0, 5})
+	a4 := alphabet(2, []int{0, 1}, []int{0, 5}, []int{5})
 	if c.Thorough() {
-		n4 = r.exhaustive(small, 4, 2, exPool)
-	} else {
-		n4 = r.exhaustive(tiny, 4, 2, exPool)
+		a4 = alphabet(2, []int{0, 1}, []int{0, 5, 6}, []int{0, 5})
 	}
+	n3 := r.exhaustive(a3, 3, 2, exPool)
+	n4 := r.exhaustive(a4, 4, 2, exPool)
 	c.Res.Exhaustive = true
-	c.Res.ExhaustiveWhat = fmt.Sprintf("all %d sequences of length 3 over %d operations and all %d sequences of length 4 over %d operations (TempVM slots up to renaming), every prefix judged", n3, len(small), n4, map[bool]int{true: len(small), false: len(tiny)}[c.Thorough()])
+	c.Res.ExhaustiveWhat = fmt.Sprintf("all %d sequences of length 3 over %d operations and all %d sequences of length 4 over %d operations on base + 2 TempVMs (slots up to renaming), every prefix judged after every step", n3, len(a3), n4, len(a4))
 
 	// ---- seeded part: 1 base + 4 TempVMs, 8 names, all files
 	alpha := alphabet(4, allPool(), []int{0, 1, 2, 3, 4, 5, 6, 7, 8, 9}, []int{0, 1, 5, 6, 7, 8, 9})
-	var batch []caseT
-	for i := 0; i < c.N(6000, 150000); i++ {
-		batch = append(batch, r.randomCase(alpha, c.Rand.Range(5, 40), "main"))
-		if len(batch) >= 500 {
-			r.runBatch(batch)
-			batch = batch[:0]
-		}
+	for i := 0; i < c.N(20000, 400000); i++ {
+		r.push(r.randomCase(alpha, c.Rand.Range(5, 40), "main"))
 	}
-	r.runBatch(batch)
+	r.flush()
 
 	// ---- known stream
 	r.knownStream()
